@@ -9,7 +9,9 @@ from ecc_util import Params
 
 NAMES = ["a.bin", "b.txt", "sub/c.dat", "sub/deep/d", "z", "\xfastart", "\xffy.bin", "end\xfa", "sp ace.txt", "caf\xe9.doc", "sub/e\xfe.x",
          "back\\slash.bin", "win\\dir/f.txt",
-         "x" * 40 + ".long", "n" * 130 + ".verylong", "dir with space/f", "0"]
+         "x" * 40 + ".long", "n" * 130 + ".verylong", "dir with space/f", "0",
+         # names beginning with dots or holding them where a path operation might eat them (leading '.', '..x', './/' never occurs in a recorded path)
+         ".hidden", ".cfg/settings.ini", "..data", "sub/.keep", "...", "a./b.", "-dash", "~tilde", " lead", "trail "]
 
 
 def gen_params(rng, tool=None, small=False, erasures=None):
